@@ -1,5 +1,6 @@
 """C09 - numeric keywords are exact for numbers of any magnitude and never raise."""
 import math
+import sys
 import struct
 from fractions import Fraction
 
@@ -53,9 +54,21 @@ class Observer(object):
                     o.append("valid" if v.is_valid(x) else "invalid")
                 except Exception as e:  # noqa
                     o.append("raise")
-                    exc.append(type(e).__name__)
+                    exc.append("%s: %s" % (type(e).__name__, str(e)[:40]))
             obs.append(o)
         return obs, exc
+
+
+def txt(x):
+    """text of a number for reports; integers beyond the interpreter's int->str limit are written in hexadecimal"""
+    if isinstance(x, int) and not isinstance(x, bool) and beyond_limit(x):
+        return hex(x)
+    return repr(x)
+
+
+def beyond_limit(x):
+    lim = sys.get_int_max_str_digits() if hasattr(sys, "get_int_max_str_digits") else 0
+    return bool(lim) and isinstance(x, int) and not isinstance(x, bool) and x.bit_length() * 0.30103 > lim
 
 
 def rand_float(rng):
@@ -115,7 +128,7 @@ def rand_case(rng):
         x = rng.choice([b * rng.getrandbits(rng.randrange(1, 70)), rng.getrandbits(rng.randrange(1, 120))])
         return sgn * x, b, None
     # huge integer against a float divisor below one / a huge float
-    x = rng.getrandbits(rng.randrange(1000, 5000))
+    x = rng.getrandbits(rng.randrange(1000, 5000) if rng.random() < 0.8 else rng.randrange(14300, 20000))
     b = rng.choice([0.5, 0.25, 0.75, 1e-10, 1e300, 3.0, math.ldexp(1.0, -1074), float(1 << 600)])
     return sgn * x, b, None
 
@@ -130,7 +143,7 @@ def main(args):
                "forms (incl. maximum next to a far exclusiveMaximum and minimum next to a far exclusiveMinimum in drafts 6/7) x 4 drafts; plus seeded random pairs from 10 families (random doubles, exact float multiples, "
                "power-of-two divisors, integer divisors, witnessed huge integers, 2^53 neighbourhood, subnormals, zeros, "
                "dense integers, huge-int/float) validated by Trace_C09. Non-trivial: both operands non-zero; distinct by "
-               "(repr(x), repr(b))." % ("" if quick else ", 2^10000"))
+               "(txt(x), txt(b))." % (", 2^15000" if quick else ", 2^10000, 2^15000"))
     r = tlc.run("mc/MC_C09.tla", cfg="mc/MC_C09_%s.cfg" % args.tier, workers=16, timeout=3000)
     if r.violation:
         raise tlc.MachineryFailure("spec-level law violated in MC_C09: " + r.violation)
@@ -139,17 +152,17 @@ def main(args):
         x, b = dec(ex["x"]), dec(ex["b"])
         obs, exc = ob.observe(x, b)
         ck.replayed += 1
-        ck.count((repr(x), repr(b)), x != 0 and b != 0)
+        ck.count((txt(x), txt(b)), x != 0 and b != 0)
         want = [ex["min"], ex["minx"], ex["max"], ex["maxx"]]
         for j in range(4):
             col = [o[j] for o in obs]
             if any(c != want[j] for c in col):
-                ck.violation(FORMS[j], {"x": repr(x), "b": repr(b), "expected": want[j], "observed_per_draft": col,
+                ck.violation(FORMS[j], {"x": txt(x), "b": txt(b), "beyond_int_str_limit": beyond_limit(x) or beyond_limit(b), "expected": want[j], "observed_per_draft": col,
                                         "exceptions": exc, "source": "MC_C09"})
         for j, key in ((5, "maxp"), (6, "minp")):
             col = [o[j] for o in obs if o[j] != "n/a"]
             if any(c != ex[key] for c in col):
-                ck.violation(FORMS[j], {"x": repr(x), "b": repr(b), "expected": ex[key], "observed_per_draft": col,
+                ck.violation(FORMS[j], {"x": txt(x), "b": txt(b), "beyond_int_str_limit": beyond_limit(x) or beyond_limit(b), "expected": ex[key], "observed_per_draft": col,
                                         "exceptions": exc, "source": "MC_C09"})
         col = [o[4] for o in obs]
         m = ex["mult"]
@@ -162,10 +175,10 @@ def main(args):
             allowed = {m}
         if any(c not in allowed for c in col):
             ck.violation("multipleOf" if "raise" not in col else "multipleOf_raises",
-                         {"x": repr(x), "b": repr(b), "expected": sorted(allowed), "observed_per_draft": col,
+                         {"x": txt(x), "b": txt(b), "beyond_int_str_limit": beyond_limit(x) or beyond_limit(b), "expected": sorted(allowed), "observed_per_draft": col,
                           "exceptions": exc, "source": "MC_C09"})
         if m in ("valid",) and isinstance(x, float) and x != 0:
-            ck.sample({"x": repr(x), "b": repr(b), "spec": {k: ex[k] for k in ("min", "minx", "max", "maxx", "mult")},
+            ck.sample({"x": txt(x), "b": txt(b), "beyond_int_str_limit": beyond_limit(x) or beyond_limit(b), "spec": {k: ex[k] for k in ("min", "minx", "max", "maxx", "mult")},
                        "observed": obs[3]})
     ck.exhaustive = True
 
@@ -181,8 +194,8 @@ def main(args):
             ck.skipped += 1
             continue
         recs.append(rec)
-        real[i] = {"x": repr(x), "b": repr(b), "observed_per_draft": obs, "exceptions": exc, "forms": FORMS}
-        ck.count((repr(x), repr(b)), x != 0 and b != 0)
+        real[i] = {"x": txt(x), "b": txt(b), "beyond_int_str_limit": beyond_limit(x) or beyond_limit(b), "observed_per_draft": obs, "exceptions": exc, "forms": FORMS}
+        ck.count((txt(x), txt(b)), x != 0 and b != 0)
     bad, states = tlc.validate_trace("trace/Trace_C09.tla", recs, "c09", shards=16, heap="4g")
     ck.states += states
     ck.transitions += states
